@@ -6,6 +6,7 @@ import Deepali.Model.Transforms
 import Deepali.Proofs.GridMaps
 import Deepali.Proofs.SamplePipe
 import Deepali.Proofs.Transforms
+import Deepali.Proofs.FlowRepr
 
 set_option linter.unusedSectionVars false
 set_option linter.unusedSimpArgs false
@@ -158,5 +159,70 @@ theorem imageTransformerCoord_unnormalized (T : Vec d K → Vec d K) {tg tgt src
   simp only [transformAxes] at e2
   rw [e2, toGrid_fromGrid hs _ hsc]
   simp only [worldMap, transformAxes]
+
+end Deepali
+
+namespace Deepali
+open Matrix
+variable {K : Type} [Field K] [LinearOrder K] [IsStrictOrderedRing K] [FloorRing K] {d : Nat}
+
+/-! ### base-class `disp(grid)` after the repairs eb11384 / 8e0bb59 -/
+
+/-- the repaired base-class `disp` of a linear transform is the composite recipe applied to `h.apply`. -/
+theorem dispLinear_eq_dispComposite (h : H d K) (tg g : Grid d K) (n : Fin d → Nat) (sd : Bool) (j : Vec d K) :
+    dispLinear h tg g n sd j = dispComposite h.apply tg g n sd j := by
+  unfold dispLinear dispComposite dispLinearWith dispCompositeWith affineFlowAt
+  cases dispCompositeMaps tg g sd with
+  | none => rfl
+  | some p => cases p; rfl
+
+theorem toGridLin_congr {g g' : Grid d K} (h : g.EqUpToAc g') (a : Axes) : toGridLin g a = toGridLin g' a := by
+  obtain ⟨s, c, sp, dr, ac⟩ := g
+  obtain ⟨s', c', sp', dr', ac'⟩ := g'
+  obtain ⟨h1, h2, h3, h4⟩ := h
+  simp only at h1 h2 h3 h4
+  subst h1 h2 h3 h4
+  cases a <;> rfl
+
+/-- non-rigid `disp(grid)` on a grid with the same samples as the transform's (and the field's) grid but the other
+    `align_corners` flag: the stored vector re-expressed in the cube axes of `grid`. -/
+theorem dispNonRigid_other_convention {tg fg g : Grid d K} {n gridN : Fin d → Nat} (hg : g.Valid)
+    (hgn : g.HasSize gridN) (h2 : ∀ i, 2 ≤ gridN i) (he : tg.EqUpToAc g) (hne : g.alignCorners ≠ tg.alignCorners)
+    (u : VField d K) (rnd : Vec d K → Vec d K) (pad : Padding) (j : Fin d → Nat) :
+    dispNonRigid tg fg g n gridN u true true rnd pad j
+      = fromGridLin g (Axes.fromAlignCorners g.alignCorners)
+          (toGridLin tg (transformAxes tg) (u (fun i => ((j i : Nat) : Int)))) := by
+  have hc : ∀ a, g.CornersOK a := fun a => hgn.cornersOK h2 a
+  simp only [dispNonRigid, dispNonRigidWith, hne, and_false, if_false, if_true]
+  rw [transformVectors_eq hg _ _ (hc _) (hc _), toGridLin_congr he]
+
+/-- non-rigid `disp(grid)` on a foreign grid (either flag), without the default rounding: the field sampled at the
+    position of grid point `j` (expressed in the cube of the field's grid), converted *as a world vector* into the cube
+    axes of `grid`. -/
+theorem dispNonRigid_foreign {tg fg g : Grid d K} {n gridN fgN : Fin d → Nat} (hg : g.Valid) (hf : fg.Valid)
+    (hgn : g.HasSize gridN) (h2 : ∀ i, 2 ≤ gridN i) (hfn : fg.HasSize fgN) (hf2 : ∀ i, 2 ≤ fgN i)
+    (u : VField d K) (pad : Padding) (j : Fin d → Nat) :
+    dispNonRigid tg fg g n gridN u false false id pad j
+      = fromGridLin g (Axes.fromAlignCorners g.alignCorners) (toGridLin g .world (fromGridLin fg .world
+          (toGridLin fg (transformAxes tg) (sampleVField tg.alignCorners pad n u
+            (fromGrid fg (transformAxes tg) (toGrid fg .world (fromGrid g .world (fun i => ((j i : Nat) : K))))))))) := by
+  have hc : ∀ a, g.CornersOK a := fun a => hgn.cornersOK h2 a
+  have hfc : ∀ a, fg.CornersOK a := fun a => hfn.cornersOK hf2 a
+  simp only [dispNonRigid, dispNonRigidWith, Bool.false_eq_true, false_and, if_false, id]
+  have hp : (fun i => coordAt (gridN i) tg.alignCorners (((j i : Nat) : K)))
+      = fromGrid g (transformAxes tg) (fun i => ((j i : Nat) : K)) :=
+    coords_eq_fromGrid hgn h2 tg.alignCorners _
+  rw [hp]
+  have e1 := applyTransformTo_eq hg hf (transformAxes tg) (transformAxes tg) (hc _) (hfc _)
+    (fromGrid g (transformAxes tg) (fun i => ((j i : Nat) : K)))
+  simp only [Grid.applyTransformTo, H.applyAs, Bool.false_eq_true, if_false] at e1
+  rw [e1, toGrid_fromGrid hg _ (hc _)]
+  have e2 := applyTransformTo_vec_eq hf hg (transformAxes tg) (transformAxes tg) (hfc _) (hc _)
+  simp only [Grid.applyTransformTo, H.applyAs, if_true] at e2
+  rw [e2]
+  by_cases hac : g.alignCorners = tg.alignCorners
+  · simp only [hac, if_true, transformAxes]
+  · simp only [hac, if_false]
+    rw [transformVectors_eq hg _ _ (hc _) (hc _), toGridLin_fromGridLin hg _ (hc _)]
 
 end Deepali
